@@ -81,6 +81,9 @@ Fixpoint chop3 {A} (l : list A) : list (A * A * A) :=
 
 Definition bind (r : ures) (f : umap -> ures) : ures := match r with UOk m => f m | e => e end.
 
+(* CMapParser.MAX_RANGE = 65536: no range is expanded beyond that many codes *)
+Definition MAX_RANGE : nat := Z.to_nat 65536.
+
 (* endbfchar *)
 Fixpoint bfchar (m : umap) (ps : list (tobj * tobj)) : ures :=
   match ps with
@@ -120,7 +123,7 @@ Fixpoint bfrange (m : umap) (ts : list (tobj * tobj * tobj)) : ures :=
         match code with
         | TList vs => bind (range_array m start n vs) (fun m' => bfrange m' r)
         | TBytes c =>
-            bind (range_incr m start (butlastn 4 c) (nunpack (lastn 4 c)) (length (lastn 4 c)) 0 n)
+            bind (range_incr m start (butlastn 4 c) (nunpack (lastn 4 c)) (length (lastn 4 c)) 0 (Nat.min n MAX_RANGE))
                  (fun m' => bfrange m' r)
         | _ => UAssertion
         end
@@ -155,7 +158,7 @@ Fixpoint cidrange (m : umap) (ts : list (tobj * tobj * tobj)) : ures :=
       if negb (length s =? length e)%nat || negb (zs_eq (butlastn 4 s) (butlastn 4 e)) then cidrange m r
       else
         let start := nunpack (lastn 4 s) in let end_ := nunpack (lastn 4 e) in
-        bind (cidrange_incr m cid (butlastn 4 s) start (length (lastn 4 s)) 0 (Z.to_nat (end_ - start + 1)))
+        bind (cidrange_incr m cid (butlastn 4 s) start (length (lastn 4 s)) 0 (Nat.min (Z.to_nat (end_ - start + 1)) MAX_RANGE))
              (fun m' => cidrange m' r)
   | _ :: r => cidrange m r
   end.
@@ -198,7 +201,10 @@ Fixpoint get_widths (m : wmap) (r : list (Q * bool)) (seq : list witem) : wmap :
   | WN q i :: rest =>
       match r with
       | [(c1, i1); (c2, i2)] =>
-          if i1 && i2 then get_widths (set_range m (qint c1) (Z.to_nat (qint c2 - qint c1 + 1)) q) [] rest
+          if i1 && i2 then
+            (* range(max(char1, 0), min(char2, 65535) + 1) *)
+            let lo := Z.max (qint c1) 0 in let hi := Z.min (qint c2) 65535 in
+            get_widths (set_range m lo (Z.to_nat (hi - lo + 1)) q) [] rest
           else get_widths m [] rest
       | _ => get_widths m (r ++ [(q, i)]) rest
       end
@@ -226,7 +232,9 @@ Fixpoint get_widths2 (m : w2map) (r : list Q) (seq : list witem) : w2map :=
       end
   | WN q _ :: rest =>
       match r with
-      | [c1; c2; w; vx] => get_widths2 (set_range2 m (qint c1) (Z.to_nat (qint c2 - qint c1 + 1)) (w, (vx, q))) [] rest
+      | [c1; c2; w; vx] =>
+          let lo := Z.max (qint c1) 0 in let hi := Z.min (qint c2) 65535 in
+          get_widths2 (set_range2 m lo (Z.to_nat (hi - lo + 1)) (w, (vx, q))) [] rest
       | _ => get_widths2 m (r ++ [q]) rest
       end
   | WX :: rest => get_widths2 m r rest
